@@ -146,14 +146,6 @@ Proof.
         exact IH.
 Qed.
 
-Lemma f64_loop_mono n f e o : f64_loop n f e = Ok o -> forall m, (n <= m)%nat -> f64_loop m f e = Ok o.
-Proof.
-  revert f e. induction n as [|n IH]; intros f e Hl m Hm; [discriminate Hl|].
-  destruct m as [|m]; [lia|]. rewrite f64_loop_S in *.
-  destruct (pow10_tab (Z.abs e)) as [p|]; [exact Hl|].
-  destruct (b64_is_zero f); [exact Hl|]. destruct (0 <=? e); [exact Hl|]. apply IH; [exact Hl|lia].
-Qed.
-
 Theorem f64_from_parts_src : forall positive sig e s fuel, float_roundtrip (cf E) = false -> (sig <= u64_max)%N -> i32_ok e ->
   (10 <= fuel)%nat ->
   run fuel E P "f64_from_parts" [VB positive; VInt U64 (Z.of_N sig); VInt I32 e] s = liftF (Num.f64_from_parts E positive sig e s).
@@ -257,6 +249,12 @@ Example parse_integer_exp_overflow :
   run 60 E_ex NUMPARSE "parse_integer" [VB true] (init_st [49; 101; 57; 57; 57; 57; 57; 57; 57; 57; 57; 57; 57]%N)
   = Err NumberOutOfRange 12.
 Proof. vm_compute. reflexivity. Qed.
+(* why parse_decimal needs [-2147483648 <= eb - length]: with eb = i32::MIN (a legal i32 argument) on ".5" the source computes
+   `exponent_before_decimal_point + exponent_after_decimal_point` = i32::MIN - 1: a panic under overflow-checks; the model counts in Z *)
+Example parse_decimal_needs_its_bound :
+  run 40 E_ex NUMPARSE "parse_decimal" [VB true; VInt U64 5; VInt I32 (-2147483648)] (init_st [46; 53]%N) = Panic /\
+  f64_bits (liftF (Num.parse_decimal E_ex true 5 (-2147483648) (init_st [46; 53]%N))) = Ok (0%N, mkSt [] 2 false Gen.Tables.DEPTH0).
+Proof. split; vm_compute; reflexivity. Qed.
 Example parse_integer_out_of_fuel :
   run 5 E_ex NUMPARSE "parse_integer" [VB false] (init_st [49; 50; 51; 44]%N) = OutOfFuel.
 Proof. vm_compute. reflexivity. Qed.
